@@ -107,4 +107,21 @@ CHECKS = {
             {"harness": "c04_connectsync", "flavour": "asan", "runs": {"quick": 9000, "thorough": 900000}, "wall": {"quick": 45, "thorough": 1800}},
         ],
     },
+    "C05": {
+        "level": "exploration",
+        "rule": ("each run = 2-6 application threads looping over connect, connectSync, receiveSync, setReadMode, send, sendSync, close, addListener, getStats, observe/unobserve, "
+                 "address queries against live peers, while one terminating scenario plays out at a drawn time: stop() from a plain thread; stop() and other blocking calls attempted "
+                 "inside an I/O-thread callback; the only owner dropped by a plain thread while non-owning callers are parked in receiveSync/connectSync; the sole owner released "
+                 "inside a callback (deferred self-destruction); 2-3 start/stop cycles; TCP and UDP engines; ASan/UBSan in every run; non-trivial = at least one context switch; "
+                 "distinct = distinct (mode, interleaving hash, abstract state hash)"),
+        "real": ["iora::network::Transport + Transport::Impl (teardown handshake, deferred self-destruction)", "TcpEngine / UdpEngine", "EventBatchProcessor", "TimerService"],
+        "stub": COMMON_STUB + ["kernel sockets, epoll, eventfd, timerfd (simrt/net.cpp)", "remote peers (scripted)"],
+        "assumptions": ["members are not invoked after the object has been destroyed (scenario 2 callers are already inside their final blocking call when the owner lets go)",
+                        "a data callback run synchronously by the caller's own Sync->Async flush is not a transport-initiated callback",
+                        "call-return bound = the call's own timeout + simulator-injected stall + 100 ms"],
+        "jobs": [
+            {"harness": "c05_teardown", "mode": "tcp", "flavour": "asan", "runs": {"quick": 7000, "thorough": 800000}, "wall": {"quick": 35, "thorough": 1500}, "seed_off": 1},
+            {"harness": "c05_teardown", "mode": "udp", "flavour": "asan", "runs": {"quick": 4000, "thorough": 400000}, "wall": {"quick": 20, "thorough": 900}, "seed_off": 2},
+        ],
+    },
 }
